@@ -147,3 +147,74 @@ Proof.
     split; [eapply frame_trans; eassumption|]. split; [exact Hinv2|].
     split; [left; exact Hrel1|]. exists zwp, ka. split; [exact Hok|]. split; reflexivity.
 Qed.
+
+(* ------------------------------------------------------------------------------------------ *)
+(* dispatch never panics under the sender invariant.  The only panic source left is the           *)
+(* receiver-side sequence subtraction of last_scaled_window (C04's invariant rcv_nxt <= window   *)
+(* end), stated as a hypothesis on the fields it reads.                                          *)
+(* ------------------------------------------------------------------------------------------ *)
+Lemma wtu_frame : forall s s1,
+  s_remote_last_ack s1 = s_remote_last_ack s -> s_remote_last_win s1 = s_remote_last_win s ->
+  s_remote_seq_no s1 = s_remote_seq_no s -> s_rx_buffer s1 = s_rx_buffer s ->
+  s_remote_win_shift s1 = s_remote_win_shift s ->
+  s_syn_unacked_in_fin_wait s1 = s_syn_unacked_in_fin_wait s ->
+  (s_state s1 = s_state s \/ s_state s1 = Closed) ->
+  (exists b, tcp_window_to_update s = Ok b) -> exists b, tcp_window_to_update s1 = Ok b.
+Proof.
+  intros s s1 E1 E2 E3 E4 E5 E6 E7 (b & Hb). unfold tcp_window_to_update in *.
+  unfold tcp_last_scaled_window, tcp_scaled_window in *. rewrite E1, E2, E3, E4, E5, E6.
+  destruct E7 as [->| ->]; [eexists; exact Hb|].
+  destruct (s_syn_unacked_in_fin_wait s); eexists; reflexivity.
+Qed.
+
+Theorem dispatch_no_panic : forall cx g s e,
+  inv g s -> ctx_ok cx ->
+  (forall st, exists b, tcp_window_to_update (upd_state s st) = Ok b) ->
+  exists res, tcp_dispatch cx s e = Ok res.
+Proof.
+  intros cx g s e Hinv Hcx Hw. unfold tcp_dispatch.
+  destruct (s_tuple s) as [t|] eqn:Et; [|eexists; reflexivity].
+  destruct (negb (tu_local_addr t =? cx_addr cx)); [eexists; reflexivity|].
+  rewrite dtimers_unfold.
+  set (s0 := if is_some (s_remote_last_ts s) then s else upd_remote_last_ts s (Some (cx_now cx))) in *.
+  assert (Hinv0 : inv g s0).
+  { unfold s0. destruct (is_some _); [exact Hinv|]. eapply inv_txv; [|exact Hinv]. reflexivity. }
+  destruct (dtimers_body_spec cx g s0 Hinv0) as (s1 & tg1 & g1 & E1 & Hinv1 & Hg1 & Hfr1 & Ht1 & Ha1 & Hw1).
+  rewrite E1. cbn [obind].
+  assert (Ht : s_tuple s1 <> None).
+  { rewrite Ht1. unfold s0. destruct (is_some _); fld; rewrite Et; discriminate. }
+  assert (Hw' : exists b, tcp_window_to_update s1 = Ok b).
+  { destruct Hfr1 as (F1 & F2 & F3 & F4 & F5 & F6 & F7 & F8 & F9 & F10 & F11).
+    assert (Hs0 : forall st, exists b, tcp_window_to_update (upd_state s0 st) = Ok b).
+    { intros st. destruct (Hw st) as (b & Hb). exists b. rewrite <- Hb. unfold s0.
+      destruct (is_some _); reflexivity. }
+    destruct F11 as [F11|F11].
+    - destruct (Hs0 (s_state s0)) as (b & Hb).
+      eapply (wtu_frame (upd_state s0 (s_state s0))); fld; try assumption; [left; exact F11|eexists; exact Hb].
+    - destruct (Hs0 Closed) as (b & Hb).
+      eapply (wtu_frame (upd_state s0 Closed)); fld; try assumption; [left; exact F11|eexists; exact Hb]. }
+  destruct (decide_total cx g1 s1 Hinv1 Hcx Ht Hw') as ([[s1' go] t2] & E2). rewrite E2. cbn [obind].
+  destruct (decide_inv _ _ _ _ _ _ Hinv1 E2) as (Hinv1' & _ & _).
+  destruct go; cbn [negb]; [|eexists; reflexivity].
+  destruct (build_total cx g1 s1' t Hinv1' Hcx) as ([[[[s2 orepr] zwp] ka] t3] & E3). rewrite E3.
+  cbn [obind]. destruct orepr; [|eexists; reflexivity].
+  destruct e; cbn [negb]; [|eexists; reflexivity].
+  destruct (tcp_dispatch_finish cx s2 t0 zwp ka). eexists; reflexivity.
+Qed.
+
+Lemma wtu_from_lsw : forall s, (exists o, tcp_last_scaled_window s = Ok o) ->
+  forall st, exists b, tcp_window_to_update (upd_state s st) = Ok b.
+Proof.
+  intros s (o & Ho) st. unfold tcp_window_to_update.
+  replace (tcp_last_scaled_window (upd_state s st)) with (tcp_last_scaled_window s) by reflexivity.
+  fld. destruct (s_syn_unacked_in_fin_wait s); [eexists; reflexivity|].
+  rewrite Ho. cbn [obind]. destruct st; try (eexists; reflexivity); destruct o; eexists; reflexivity.
+Qed.
+
+Theorem dispatch_no_panic' : forall cx g s e,
+  inv g s -> ctx_ok cx -> (exists o, tcp_last_scaled_window s = Ok o) ->
+  exists res, tcp_dispatch cx s e = Ok res.
+Proof.
+  intros cx g s e Hinv Hcx Hl. eapply dispatch_no_panic; try eassumption.
+  apply wtu_from_lsw. exact Hl.
+Qed.
